@@ -220,7 +220,8 @@ def run_case_files(run_dir, prefix, timeout=900):
 # ------------------------------------------------------------------------------------------
 # harness
 
-def build_harness(hooks=True):
+def build_harness(hooks=True, bins=None):
+    """build the named harness binaries (src/bin/<name>.rs) against /repo's working tree"""
     tgt = os.path.join(CACHE, "target")
     env = dict(ENV, CARGO_TARGET_DIR=tgt)
     if hooks:
@@ -228,16 +229,19 @@ def build_harness(hooks=True):
     hdir = os.path.join(VERIF, "harness")
     # always use /repo's lock file so the dependency versions are the repository's own
     lock_src = os.path.join(REPO, "Cargo.lock")
-    rc, out = sh(["cargo", "build", "--release", "--offline"], cwd=hdir, env=env, timeout=3000)
-    if rc != 0 and os.path.exists(lock_src):
+    cmd = ["cargo", "build", "--release", "--offline"]
+    for b in bins or []:
+        cmd += ["--bin", b]
+    rc, out = sh(cmd, cwd=hdir, env=env, timeout=3000)
+    if rc != 0 and os.path.exists(lock_src) and "lock file" in out:
         shutil.copy(lock_src, os.path.join(hdir, "Cargo.lock"))
-        rc, out = sh(["cargo", "build", "--release", "--offline"], cwd=hdir, env=env, timeout=3000)
-    return rc == 0, out, os.path.join(tgt, "release", "verif-harness")
+        rc, out = sh(cmd, cwd=hdir, env=env, timeout=3000)
+    return rc == 0, out, os.path.join(tgt, "release")
 
 
-def run_harness(binp, sub, run_dir, seed, tier, extra=None, timeout=3000, env=None):
+def run_harness(bindir, binname, run_dir, seed, tier, extra=None, timeout=3000, env=None):
     os.makedirs(run_dir, exist_ok=True)
-    cmd = [binp, sub, "--out", run_dir, "--seed", str(seed), "--tier", tier] + (extra or [])
+    cmd = [os.path.join(bindir, binname), "--out", run_dir, "--seed", str(seed), "--tier", tier] + (extra or [])
     rc, out = sh(cmd, timeout=timeout, env=env)
     rep = None
     rp = os.path.join(run_dir, "impl_report.json")
